@@ -235,10 +235,11 @@ class GenericNDimFinDiff(Problem):
             self.u_init,
         )
 
+        info = 0
         if solver_type == 'direct':
             sol[:] = spsolve(Id - factor * A, rhs.flatten()).reshape(nvars)
         elif solver_type == 'GMRES':
-            sol[:] = gmres(
+            _sol, info = gmres(
                 Id - factor * A,
                 rhs.flatten(),
                 x0=u0.flatten(),
@@ -247,9 +248,10 @@ class GenericNDimFinDiff(Problem):
                 atol=0,
                 callback=self.work_counters[solver_type],
                 callback_type='legacy',
-            )[0].reshape(nvars)
+            )
+            sol[:] = _sol.reshape(nvars)
         elif solver_type == 'CG':
-            sol[:] = cg(
+            _sol, info = cg(
                 Id - factor * A,
                 rhs.flatten(),
                 x0=u0.flatten(),
@@ -257,8 +259,12 @@ class GenericNDimFinDiff(Problem):
                 maxiter=liniter,
                 atol=0,
                 callback=self.work_counters[solver_type],
-            )[0].reshape(nvars)
+            )
+            sol[:] = _sol.reshape(nvars)
         else:
             raise ValueError(f'solver type "{solver_type}" not known in generic advection-diffusion implementation!')
+
+        if info != 0:
+            self.logger.warning(f'{solver_type} did not converge to lintol={lintol} within {liniter} iterations (info={info})')
 
         return sol
